@@ -18,7 +18,74 @@ import (
 	"verifharness/internal/sut"
 )
 
-func init() { cli.Register("c14-run", run) }
+func init() {
+	cli.Register("c14-run", run)
+	cli.Register("c14-reassign", reassign)
+}
+
+type reassignResult struct {
+	Strategy string   `json:"strategy"`
+	Phase    string   `json:"phase"`
+	Reads    int      `json:"reads"`
+	Bad      []string `json:"bad"`
+}
+
+// reassign: the replica set of a master changes while it keeps its slots (a replica is re-pointed to another master);
+// after the next refresh read-only commands for the first master's keys must no longer reach that replica.
+func reassign(args []string) error {
+	fs := flag.NewFlagSet("c14-reassign", flag.ContinueOnError)
+	out := fs.String("out", "", "results (ndjson)")
+	if err := fs.Parse(args); err != nil {
+		return err
+	}
+	sut.FastRefresh() // periodic refresh every 200 ms
+	w, err := cli.NewNDJSONWriter(*out)
+	if err != nil {
+		return err
+	}
+	defer w.Close()
+	for name, st := range map[string]pbredis.ReadStrategy{"BOTH": pbredis.ReadStrategy_BOTH, "REPLICA": pbredis.ReadStrategy_REPLICA} {
+		cl, err := simredis.NewCluster(2, 1) // masters 0,1; replica 2 of master 0, replica 3 of master 1
+		if err != nil {
+			return err
+		}
+		px, err := sut.StartRedis(sut.RedisOpts{ReadStrategy: st}, []string{cl.Nodes[0].Addr, cl.Nodes[1].Addr})
+		if err != nil {
+			return err
+		}
+		sut.WaitRefresh(px.Name, 3*time.Second)
+		c, err := sut.Dial(px.Addr)
+		if err != nil {
+			return err
+		}
+		key := cl.KeyFor(0, "ra-")
+		phase := func(ph string, forbidden int) {
+			res := reassignResult{Strategy: name, Phase: ph}
+			for _, n := range cl.Nodes {
+				n.ClearLog()
+			}
+			for i := 0; i < 60; i++ {
+				c.Do(2*time.Second, "GET", key)
+				res.Reads++
+			}
+			if forbidden >= 0 {
+				for _, r := range simredis.DataCommands(cl.Nodes[forbidden].Records()) {
+					res.Bad = append(res.Bad, fmt.Sprintf("%s delivered to node %d which is not (any more) a replica of the owning master", r.Cmd(), forbidden))
+					break
+				}
+			}
+			w.Write(res)
+		}
+		phase("initial", 3)
+		cl.Reassign(2, 1) // replica 2 now follows master 1
+		time.Sleep(700 * time.Millisecond) // several periodic refreshes
+		phase("after-reassign", 2)
+		c.Close()
+		sut.StopWithin(px.P, 5*time.Second)
+		cl.Close()
+	}
+	return nil
+}
 
 type vector struct {
 	Name     string              `json:"name"`
